@@ -19,9 +19,15 @@ func (f *frame) ghostsWrittenIn(li *loopInfo) map[string]bool {
 			cc := ci.Common()
 			if f.spec != nil {
 				key := callKey(cc)
+				ord := -1
 				for _, site := range f.spec.Sites {
 					if site.Kind == "ghost" && site.Callee == key {
-						out[site.Ghost] = true
+						if ord < 0 {
+							ord = siteOrdinal(f.fn, in, key)
+						}
+						if site.Ord == ord {
+							out[site.Ghost] = true
+						}
 					}
 				}
 			}
@@ -69,6 +75,9 @@ func specGhostWrites(sp *FuncSpec) []string {
 	seen := map[string]bool{}
 	var out []string
 	add := func(n string) {
+		if localGhosts[n] {
+			return // private to one invocation: not an effect visible to callers
+		}
 		if n != "" && !seen[n] {
 			seen[n] = true
 			out = append(out, n)
@@ -92,3 +101,6 @@ func specGhostWrites(sp *FuncSpec) []string {
 	}
 	return out
 }
+
+// localGhosts: ghost variables declared "ghost local" (see spec.go).
+var localGhosts = map[string]bool{}
